@@ -130,11 +130,11 @@ example : Inv #[0x94, 0x91, 1, 0x91, 2, 0x91, 3, 7] 0 (.arr 4 .nil 1) ∧
     partial views (every reachable one, `C01_reachable`), a valid handle's path is a path the
     eager decoder can follow from offset 0, and the node is a correct partial view of the value
     found there (so kind, length, scalar value and string extent are that header's) -/
-theorem C01_handle_denotes_eager_value (c : Ctx) (hc : CInv c) (hwf : WF c.input) (h : Handle) (m : Node)
+theorem C01_handle_denotes_eager_value (c : Ctx) (hc : CInv c) (h : Handle) (m : Node)
     (hm : c.nodeAt? h = some m) :
     ∃ pos hd, specPath c.input 0 h.path = some pos ∧ readHdr c.input pos = some hd ∧
       Inv c.input pos m ∧ m.shape = (mkNode hd).shape := by
-  obtain ⟨pos, hd, h1, h2, h3, _, _, h6⟩ := nodeAt_spec hc hwf hm
+  obtain ⟨pos, hd, h1, h2, h3, _, h6⟩ := nodeAt_spec hc hm
   exact ⟨pos, hd, h1, h2, h3, h6⟩
 
 /-- **each read entry point answers what the specification computes from the bytes**
@@ -143,7 +143,7 @@ theorem C01_handle_denotes_eager_value (c : Ctx) (hc : CInv c) (hwf : WF c.input
     context with correct roots, whatever was visited before; afterwards the roots are still
     correct, every handle is still valid and denotes a node of the same shape, and a returned
     box names an existing node -/
-theorem C01_entry_points_equal_spec (c : Ctx) (hc : CInv c) (hwf : WF c.input) (h : Handle) (m : Node)
+theorem C01_entry_points_equal_spec (c : Ctx) (hc : CInv c) (h : Handle) (m : Node)
     (hm : c.nodeAt? h = some m) :
     (∀ i, (c.getAtIndex (.node h) i).2 = Spec.getAtIndex c.input h i ∧
           ReadStepOK c (c.getAtIndex (.node h) i).1 (c.getAtIndex (.node h) i).2) ∧
@@ -152,8 +152,8 @@ theorem C01_entry_points_equal_spec (c : Ctx) (hc : CInv c) (hwf : WF c.input) (
     (∀ q, (c.getObjProp (.node h) q).2 = Spec.getObjProp c.input h q ∧
           ReadStepOK c (c.getObjProp (.node h) q).1 (c.getObjProp (.node h) q).2) ∧
     c.getValLen (.node h) = Spec.getValLen c.input h ∧ c.strOffset h = Spec.strOffset c.input h :=
-  ⟨fun i => getAtIndex_node_ok hc hwf hm i, fun i => getKeyAtIndex_node_ok hc hwf hm i,
-   fun q => getObjProp_node_ok hc hwf hm q, (getValLen_node_ok hc hwf hm).1, (getValLen_node_ok hc hwf hm).2⟩
+  ⟨fun i => getAtIndex_node_ok hc hm i, fun i => getKeyAtIndex_node_ok hc hm i,
+   fun q => getObjProp_node_ok hc hm q, (getValLen_node_ok hc hm).1, (getValLen_node_ok hc hm).2⟩
 
 /-- the context right after `initialize_from_msgpack_bytes` has correct roots (it has none) -/
 theorem C01_initial_context (c : Ctx) (b : Bytes) : CInv (c.reinit b) ∧ (c.reinit b).input = b ∧
@@ -162,45 +162,45 @@ theorem C01_initial_context (c : Ctx) (b : Bytes) : CInv (c.reinit b) ∧ (c.rei
   intro k r hk
   simp [Ctx.reinit, Ctx.fresh] at hk
 
-/-- **every document × every access history**: for any well-formed document and any finite
+/-- **every document × every access history**: for any document — well-formed or not (on
+    undecodable parts the specification itself says `ReadError`) — and any finite
     sequence of read calls (root fetches, element / key / property / length / string-address
     calls) in which the client only uses handles it was given earlier — revisits, out of order,
     interleaved across siblings, error-returning calls in between, the root fetched again — the
     answers, call by call, are exactly `Spec.run`: a function of the document bytes and each
     call's own position and arguments. Nothing else enters: two histories that ask the same
     question get the same answer. -/
-theorem C01_every_history (c0 : Ctx) (b : Bytes) (hwf : WF b) (ops : List ROp)
+theorem C01_every_history (c0 : Ctx) (b : Bytes) (ops : List ROp)
     (hresp : Spec.respects b 0 [] ops) :
     ((c0.reinit b).rrun ops).1 = Spec.run b 0 ops := by
   obtain ⟨h1, h2, h3⟩ := C01_initial_context c0 b
-  have := rrun_ok ops (c0.reinit b) [] h1 (by rw [h2]; exact hwf) (by intro h hh; cases hh)
+  have := rrun_ok ops (c0.reinit b) [] h1 (by intro h hh; cases hh)
     (by rw [h2, h3]; exact hresp)
   rw [h2, h3] at this
   exact this.1
 
 /-- and from any later point of any history (`c` reachable: correct roots, `issued` all valid) -/
-theorem C01_every_history_from (c : Ctx) (issued : List Handle) (hc : CInv c) (hwf : WF c.input)
+theorem C01_every_history_from (c : Ctx) (issued : List Handle) (hc : CInv c)
     (hiss : ∀ h ∈ issued, (c.nodeAt? h).isSome) (ops : List ROp)
     (hresp : Spec.respects c.input c.roots.size issued ops) :
     (c.rrun ops).1 = Spec.run c.input c.roots.size ops ∧ CInv (c.rrun ops).2 :=
-  let r := rrun_ok ops c issued hc hwf hiss hresp; ⟨r.1, r.2.1⟩
+  let r := rrun_ok ops c issued hc hiss hresp; ⟨r.1, r.2.1⟩
 
 /-- **history independence, stated outright**: the same call on the same handle in two contexts
     that went through different histories over the same document gets the same answer -/
 theorem C01_answer_independent_of_history (c1 c2 : Ctx) (h1 : CInv c1) (h2 : CInv c2)
-    (hb : c1.input = c2.input) (hwf : WF c1.input) (h : Handle) (m1 m2 : Node)
+    (hb : c1.input = c2.input) (h : Handle) (m1 m2 : Node)
     (hm1 : c1.nodeAt? h = some m1) (hm2 : c2.nodeAt? h = some m2) (i : Nat) (q : Bytes) :
     (c1.getAtIndex (.node h) i).2 = (c2.getAtIndex (.node h) i).2 ∧
     (c1.getKeyAtIndex (.node h) i).2 = (c2.getKeyAtIndex (.node h) i).2 ∧
     (c1.getObjProp (.node h) q).2 = (c2.getObjProp (.node h) q).2 ∧
     c1.getValLen (.node h) = c2.getValLen (.node h) ∧ c1.strOffset h = c2.strOffset h := by
-  have hwf2 : WF c2.input := hb ▸ hwf
   refine ⟨?_, ?_, ?_, ?_, ?_⟩
-  · rw [(getAtIndex_node_ok h1 hwf hm1 i).1, (getAtIndex_node_ok h2 hwf2 hm2 i).1, hb]
-  · rw [(getKeyAtIndex_node_ok h1 hwf hm1 i).1, (getKeyAtIndex_node_ok h2 hwf2 hm2 i).1, hb]
-  · rw [(getObjProp_node_ok h1 hwf hm1 q).1, (getObjProp_node_ok h2 hwf2 hm2 q).1, hb]
-  · rw [(getValLen_node_ok h1 hwf hm1).1, (getValLen_node_ok h2 hwf2 hm2).1, hb]
-  · rw [(getValLen_node_ok h1 hwf hm1).2, (getValLen_node_ok h2 hwf2 hm2).2, hb]
+  · rw [(getAtIndex_node_ok h1 hm1 i).1, (getAtIndex_node_ok h2 hm2 i).1, hb]
+  · rw [(getKeyAtIndex_node_ok h1 hm1 i).1, (getKeyAtIndex_node_ok h2 hm2 i).1, hb]
+  · rw [(getObjProp_node_ok h1 hm1 q).1, (getObjProp_node_ok h2 hm2 q).1, hb]
+  · rw [(getValLen_node_ok h1 hm1).1, (getValLen_node_ok h2 hm2).1, hb]
+  · rw [(getValLen_node_ok h1 hm1).2, (getValLen_node_ok h2 hm2).2, hb]
 
 /-- non-vacuity: `[[1],{"a":2}]` is well-formed, and a history that fetches the root, takes
     element 1, looks up `"a"` in it, revisits element 0 and asks its length respects the protocol -/
